@@ -53,10 +53,16 @@ def acyclic(n, edges):
     return seen == n
 
 
+LETTERS = ["A", "B", "C", "E", "K", "T", "U", "V", "X", "Z"]
+
+
 def build(n, edges, ctxs, enum_leaves, nfiles, tag, external=False, emit=()):
     """edges: list of (i, j) meaning Ti has a field of a type mentioning Tj; ctxs: per-edge context index;
     emit: nodes that are ALSO the payload of an emitted event (a payload type can be a dependency of a command type)"""
     names = ["%sN%d" % (tag, i) for i in range(n)]
+    if tag.startswith("L") and n <= len(LETTERS):
+        # type names of one upper-case letter (the look of a generic parameter), in ascending or descending index order
+        names = [LETTERS[i] for i in range(n)] if tag == "La" else [LETTERS[len(LETTERS) - 1 - i] for i in range(n)]
     out_edges = {i: [] for i in range(n)}
     for k, (i, j) in enumerate(edges):
         out_edges[i].append((j, CTX[ctxs[k]][1](rg.N(names[j]))))
@@ -123,7 +129,10 @@ def run_case(a):
     cli, key, n, edges, ctxs, enum_leaves, nfiles, seeds = a[:8]
     external = len(a) > 8 and a[8]
     emit = a[9] if len(a) > 9 else ()
-    files, names = build(n, edges, ctxs, enum_leaves, nfiles, "G", external, emit)
+    tag = "G"
+    if n + 1 <= len(LETTERS) and sum(map(ord, repr(key))) % 5 == 2:
+        tag = "La" if sum(map(ord, repr(key))) % 2 else "Lz"
+    files, names = build(n, edges, ctxs, enum_leaves, nfiles, tag, external, emit)
     cfg = {"type_mappings": {"Uuid": "string", "DateTime<Utc>": "string"}} if external else None
     orders = set()
     viol = []
@@ -174,7 +183,7 @@ def run_case(a):
                 if len(extra) >= 2:
                     break
             edges2 = list(edges) + extra + [(0, n)]          # node n: the brand-new type, a dependency of the first node
-            files2, names2 = build(n + 1, edges2, list(ctxs) + [0] * (len(edges2) - len(edges)), enum_leaves, nfiles, "G", external, emit)
+            files2, names2 = build(n + 1, edges2, list(ctxs) + [0] * (len(edges2) - len(edges)), enum_leaves, nfiles, tag, external, emit)
             import shutil
             shutil.rmtree(root + "/src", ignore_errors=True)
             common.write_tree(root + "/src", files2)
